@@ -203,6 +203,22 @@ static struct sfd *lookup(int fd, const char *call, bool *bad)
 	return &fds[fd];
 }
 
+static int fd_limit;      /* RLIMIT_NOFILE-like bound on simultaneously open descriptors, 0 = none */
+static int fd_limit_hits; /* calls refused with EMFILE because of it */
+int sim_open_fds(void);
+
+static bool fd_limit_timers_only;
+void sim_set_fd_limit(int n, bool timers_only)
+{
+	fd_limit = n;
+	fd_limit_timers_only = timers_only;
+}
+
+int sim_fd_limit_hits(void)
+{
+	return fd_limit_hits;
+}
+
 static int new_fd(enum fdkind kind)
 {
 	if (next_fd >= MAXFD) {
@@ -826,6 +842,11 @@ int simk_accept(int fd, struct sockaddr *addr, socklen_t *addrlen)
 		return -1;
 	}
 	int err;
+	if (fd_limit > 0 && !fd_limit_timers_only && sim_open_fds() >= fd_limit) {
+		fd_limit_hits++;
+		errno = EMFILE; /* the connection stays queued */
+		return -1;
+	}
 	if (should_fail("accept", -1, &err)) {
 		if (err == ECONNABORTED) {
 			/* the pending connection is consumed by an aborted accept */
@@ -1208,6 +1229,11 @@ int simk_timerfd_create(int clockid, int flags)
 	int err;
 	if (should_fail("timerfd_create", -1, &err)) {
 		errno = err;
+		return -1;
+	}
+	if (fd_limit > 0 && sim_open_fds() >= fd_limit) {
+		fd_limit_hits++;
+		errno = EMFILE;
 		return -1;
 	}
 	int fd = new_fd(FD_TIMER);
